@@ -36,6 +36,13 @@ def _check_effect_family(args):
     tt = [":".join(wr.get(f, f) for f in t) for t in terms]
     if render == "joint":
         text = "y ~ (" + ("" if case["icpt"] else "0 + ") + " + ".join(tt) + f" | {gtxt})"
+    elif render == "minus_icpt":
+        # the group intercept that '|' adds is taken away again: the effect is coded as if it had never been there
+        text = "y ~ (" + " + ".join(tt) + f" | {gtxt}) - (1 | {gtxt})"
+    elif render == "swapped":
+        # an interaction grouping factor spelled in both component orders: one factor
+        parts = [f"(0 + {t} | {'k:g' if j % 2 == 0 else 'g:k'})" for j, t in enumerate(tt)] + ([f"(1 | g:k)"] if case["icpt"] else [])
+        text = "y ~ " + " + ".join(parts)
     elif render == "margin_icpt":
         # the group intercept of a MARGIN of the grouping factor is in the model, its own is not:
         # the effect under g:k is still coded without reference to an intercept
@@ -70,12 +77,19 @@ def _check_effect_family(args):
         for name in mine:
             z = np.asarray(dm.group[name], dtype=float)
             covered += z.shape[1]
+            # the slots of a term follow the order in which ITS factor is written (g:k or k:g)
+            order = [str(c.name) for c in dm.group.terms[name].factor.components]
+            if sorted(order) == sorted(gvars) and order != list(gvars):
+                tcells = sorted(set(zip(*[df[v] for v in order])))
+                tidx = [tcells.index(tuple(df[v].iloc[r] for v in order)) for r in range(len(df))]
+            else:
+                tidx = gidx
             if z.shape[1] % len(cells) != 0:
                 return ({"clause": "term_block_is_not_groups_times_effect_columns", **kf}, dict(base, term=name, width=int(z.shape[1]), groups=len(cells))), "bad"
             wd = z.shape[1] // len(cells)
             for r in range(len(df)):
                 row = z[r].copy()
-                row[gidx[r] * wd : (gidx[r] + 1) * wd] = 0
+                row[tidx[r] * wd : (tidx[r] + 1) * wd] = 0
                 if np.any(row != 0):
                     return ({"clause": "row_non_zero_outside_its_group", **kf}, dict(base, term=name, row=r)), "bad"
         x = np.column_stack([np.asarray(dm.group[name]) for name in mine]) if mine else np.zeros((len(df), 0))
@@ -136,6 +150,8 @@ def effect_families(rep, seed, sample, gshapes):
     jobs += [(c, seed, g, rd, "plain") for c in nog for g in ("g + k", "g/k") for rd in (["joint", "implicit"] if c["icpt"] else ["joint"])]
     jobs += [(c, seed, "g", "implicit", "plain") for c in cases if c["icpt"]]
     jobs += [(c, seed, "g:k", "margin_icpt", "plain") for c in nog if not c["icpt"]]
+    jobs += [(c, seed, "g", "minus_icpt", "plain") for c in cases if not c["icpt"]]
+    jobs += [(c, seed, "g:k", "swapped", "plain") for c in nog]
     results = common.pool_map(_check_effect_family, jobs)
     for (c, _, g, rd, at), (prob, kind) in zip(jobs, results):
         rep.cov["evaluations"] += 1
